@@ -9,6 +9,9 @@
 (*   scale     {id, t, q, form, n, block, obs}            large arrays via the      *)
 (*                                                        concatenation law         *)
 (*   threads   {id, t, q, form, nthreads, mism}           concurrent = sequential   *)
+(*   world     {id, t, args, f, a, b, steps, obs, signs}  sessions over twin objects *)
+(*                                                        in one process = fresh    *)
+(*                                                        world; twin order         *)
 (* Rejected records are printed with the names of the failing clauses.             *)
 EXTENDS Cosmo, Json, IOUtils
 
@@ -31,6 +34,7 @@ FailingRec(r) ==
       [] r.t = "copy"     -> CFailCopy(r)
       [] r.t = "scale"    -> CFailScale(r)
       [] r.t = "threads"  -> CFailThreads(r)
+      [] r.t = "world"    -> CFailWorld(r)
       [] OTHER            -> {"harness_unknown_record_type"}
 
 Check == tid > 0 =>
